@@ -177,7 +177,7 @@ def run(ctx: Ctx):
         body = list(I.body)
         skips = [s for s in body if isinstance(s, ast.If) and len(s.body) == 1 and isinstance(s.body[0], ast.Continue)]
         for s in skips:
-            ctx.check(allow_skip is not None and norm(s.test) == allow_skip, "R-C18-4", g, s,
+            ctx.check(allow_skip is not None and norm(s.test) == allow_skip.replace("{interval}", norm(I.target)), "R-C18-4", g, s,
                       "named exception: TextGrid interval tiers contain filler intervals with an empty mark, which are skipped",
                       bad_detail=f"annotations are skipped on `{norm(s.test)}`: not every non-empty interval of the selected tiers becomes a unit",
                       key=f"{qn}:skip")
@@ -195,11 +195,13 @@ def run(ctx: Ctx):
                       bad_detail=f"{nm} mode does not add (annotator, Segment({st}, {en}), {want})", key=f"{qn}:{nm}")
     tier_reader("Continuum.add_textgrid",
                 lambda g, I, tn: norm(I.iter) in [norm(s.targets[0] if isinstance(s, ast.Assign) else s.target) for s in ast.walk(g.node)
-                                                 if isinstance(s, (ast.Assign, ast.AnnAssign)) and s.value is not None and norm(s.value) == f"tg.getFirst({tn})"],
+                                                 if isinstance(s, (ast.Assign, ast.AnnAssign)) and isinstance(s.value, ast.Call) and
+                                                 isinstance(s.value.func, ast.Attribute) and s.value.func.attr == "getFirst" and [norm(a) for a in s.value.args] == [tn]],
                 lambda I: (f"{norm(I.target)}.minTime", f"{norm(I.target)}.maxTime"),
-                lambda I: f"{norm(I.target)}.mark", f"not interval.mark")
+                lambda I: f"{norm(I.target)}.mark", "not {interval}.mark")
     tier_reader("Continuum.add_elan",
-                lambda g, I, tn: norm(I.iter) == f"eaf.get_annotation_data_for_tier({tn})",
+                lambda g, I, tn: isinstance(I.iter, ast.Call) and isinstance(I.iter.func, ast.Attribute) and I.iter.func.attr == "get_annotation_data_for_tier"
+                and [norm(a) for a in I.iter.args] == [tn],
                 lambda I: (norm(I.target.elts[0]), norm(I.target.elts[1])) if isinstance(I.target, ast.Tuple) and len(I.target.elts) >= 3 else ("?", "?"),
                 lambda I: norm(I.target.elts[2]) if isinstance(I.target, ast.Tuple) and len(I.target.elts) >= 3 else "?", None)
     # ---------------- R-C18-5
